@@ -51,7 +51,16 @@ def strat(tier):
         'api': st.sampled_from(['with', 'with', 'explicit']),
         # a part file left by an earlier, crashed attempt (longer / shorter than the new content); taken over with overwrite_part=True
         'stale_part': st.sampled_from([None, None, None, 'longer', 'shorter']),
+        # length of the destination's file name: NAME_MAX is 255, the default part file appends 5 characters ('.part')
+        'name_len': st.sampled_from([None, None, None, None, None, None, 250, 251, 255]),
     })
+
+
+def _dest_name(case):
+    n = case.get('name_len')
+    if not n:
+        return 'dest.bin'
+    return 'd' * (n - 4) + '.bin'
 
 
 def _config(case):
@@ -85,7 +94,7 @@ def _stale(case, new):
     return b'STALE-' * (len(new) // 6 + 50) if sp == 'longer' else b'S'
 
 
-def _prepare(sandbox, old, stale=None, part_name='dest.bin.part'):
+def _prepare(sandbox, old, stale=None, part_name='dest.bin.part', dest_name='dest.bin'):
     for name in os.listdir(sandbox):
         p = os.path.join(sandbox, name)
         if os.path.isdir(p):
@@ -93,11 +102,11 @@ def _prepare(sandbox, old, stale=None, part_name='dest.bin.part'):
         else:
             os.unlink(p)
     if old is not None:
-        with open(os.path.join(sandbox, 'dest.bin'), 'wb') as f:
+        with open(os.path.join(sandbox, dest_name), 'wb') as f:
             f.write(old)
             f.flush()
             os.fsync(f.fileno())
-    if stale is not None:
+    if stale is not None and len(part_name) <= 255:
         with open(os.path.join(sandbox, part_name), 'wb') as f:
             f.write(stale)
             f.flush()
@@ -107,29 +116,35 @@ def _prepare(sandbox, old, stale=None, part_name='dest.bin.part'):
 def _body(case, chunks, overwrite, buffering, sandbox):
     def body(ip):
         os.chdir(sandbox)
-        dest = 'dest.bin' if case['relative'] else os.path.join(sandbox, 'dest.bin')
+        import errno
+        dest = _dest_name(case) if case['relative'] else os.path.join(sandbox, _dest_name(case))
         kw = {'text_mode': bool(case['text_mode']), 'overwrite': overwrite, 'buffering': buffering}
         if case['part_file']:
             kw['part_file'] = case['part_file']
         if case.get('stale_part'):
             kw['overwrite_part'] = True
-        if case['api'] == 'with':
-            with fileutils.atomic_save(dest, **kw) as f:
+        try:
+            if case['api'] == 'with':
+                with fileutils.atomic_save(dest, **kw) as f:
+                    for c in chunks:
+                        f.write(c)
+            else:
+                s = fileutils.AtomicSaver(dest, **kw)
+                s.setup()
+                f = s.part_file
                 for c in chunks:
                     f.write(c)
-        else:
-            s = fileutils.AtomicSaver(dest, **kw)
-            s.setup()
-            f = s.part_file
-            for c in chunks:
-                f.write(c)
-            s.__exit__(None, None, None)
+                s.__exit__(None, None, None)
+        except OSError as e:
+            if e.errno == errno.ENAMETOOLONG:
+                return {'done': False, 'refused': 'ENAMETOOLONG'}
+            raise
         return {'done': True}
     return body
 
 
-def _dest_state(sandbox):
-    p = os.path.join(sandbox, 'dest.bin')
+def _dest_state(sandbox, dest_name='dest.bin'):
+    p = os.path.join(sandbox, dest_name)
     if not os.path.lexists(p):
         return None
     with open(p, 'rb') as f:
@@ -154,38 +169,54 @@ def run(case):
             [len(c) for c in chunks], _short(old))
         # ---- recording run ---------------------------------------------
         stale = _stale(case, new)
-        part_name = case['part_file'] or 'dest.bin.part'
-        _prepare(sandbox, old, stale, part_name)
+        DEST = _dest_name(case)
+        part_name = case['part_file'] or DEST + '.part'
+        too_long = len(part_name) > 255     # the part file cannot be created: the save must be refused with ENAMETOOLONG
+        if too_long:
+            stale = None
+            cfg += ' [destination file name of %d characters: the part file name exceeds NAME_MAX]' % len(DEST)
+        elif case.get('name_len'):
+            cfg += ' [destination file name of %d characters]' % len(DEST)
+        _prepare(sandbox, old, stale, part_name, DEST)
         code, res = fsio.run_in_child(sandbox, body)
         if res is None or code != 0:
             raise HarnessError('recording child failed: exit %r, result %r' % (code, res))
         if res.get('harness_exception'):
             return out.fail('c04.save-raises', '%s raised %s' % (cfg, res['harness_exception']))
         events = res['events']
-        final = _dest_state(sandbox)
-        if final != new:
+        final = _dest_state(sandbox, DEST)
+        refused = not res.get('done')
+        if refused and not too_long:
+            return out.fail('c04.save-raises', '%s raised ENAMETOOLONG although the part file name fits' % cfg)
+        if refused:
+            # nothing may have happened
+            if final != old:
+                return out.fail('c04.partial-destination', '%s: the save was refused (ENAMETOOLONG) but the destination is %s, before %s' % (
+                    cfg, _short(final), _short(old)))
+            new = old if old is not None else new
+        elif final != new:
             return out.fail('c04.normal-exit-content', '%s: after a normal exit the destination is %s, expected the new content %s' % (
                 cfg, _short(final), _short(new)))
         left = sorted(os.listdir(sandbox))
-        if left != ['dest.bin']:
-            return out.fail('c04.normal-exit-leftovers', '%s: after a normal exit the directory holds %r' % (cfg, left))
+        if left != ([DEST] if final is not None else []):
+            return out.fail('c04.normal-exit-leftovers', '%s: after a normal exit the directory holds %r' % (cfg, [x[:20] for x in left]))
         # ---- trace oracle ----------------------------------------------
         # (VERIF_C04_NO_TRACE=1 is a self-test switch: it disables the static trace oracle so that the
         #  crash enumeration below can be shown to catch the same defects on its own)
-        trace_oracle = os.environ.get('VERIF_C04_NO_TRACE') != '1'
-        pubs = [i for i, e in enumerate(events) if e['kind'] in ('os.rename', 'os.replace', 'os.link') and e.get('dst') == 'dest.bin' and not e.get('error')]
+        trace_oracle = os.environ.get('VERIF_C04_NO_TRACE') != '1' and not refused
+        pubs = [i for i, e in enumerate(events) if e['kind'] in ('os.rename', 'os.replace', 'os.link') and e.get('dst') == DEST and not e.get('error')]
         trace = [(e['kind'], e.get('path'), e.get('dst')) for e in events]
         if len(pubs) != 1 and trace_oracle:
             return out.fail('c04.publication-not-unique', '%s: %d publication events onto the destination; trace %r' % (cfg, len(pubs), trace))
         pub = pubs[0] if pubs else len(events)
-        src = events[pub]['path'] if pubs else 'dest.bin.part'
+        src = events[pub]['path'] if pubs else DEST + '.part'
         if pubs and trace_oracle and (not events[pub].get('src_dir_same', True) or '/' in src):
             return out.fail('c04.part-file-other-directory', '%s: the published file %r is not in the destination directory' % (cfg, src))
-        direct = [i for i, e in enumerate(events) if e.get('path') == 'dest.bin' and e['kind'] in ('open', 'os.open', 'os.truncate', 'f.write')
+        direct = [i for i, e in enumerate(events) if e.get('path') == DEST and e['kind'] in ('open', 'os.open', 'os.truncate', 'f.write')
                   and (e.get('trunc') or e['kind'] in ('f.write', 'os.truncate') or (e['kind'] == 'os.open' and (e.get('flags', 0) & (os.O_WRONLY | os.O_RDWR))))]
         if direct and trace_oracle:
             return out.fail('c04.destination-written-in-place', '%s: the destination itself is opened for writing/truncated (event %r)' % (cfg, events[direct[0]]))
-        unl = [i for i, e in enumerate(events) if e['kind'] in ('os.unlink', 'os.remove') and e.get('path') == 'dest.bin' and i < pub]
+        unl = [i for i, e in enumerate(events) if e['kind'] in ('os.unlink', 'os.remove') and e.get('path') == DEST and i < pub]
         if unl and old is not None and trace_oracle:
             return out.fail('c04.destination-unlinked-first', '%s: the destination is removed before the new file is published; trace %r' % (cfg, trace))
         writes = [i for i, e in enumerate(events) if e['kind'] == 'f.write' and e.get('path') == src and e.get('n')]
@@ -205,14 +236,14 @@ def run(case):
         n_nontrivial = 0
         for idx in range(len(events)):
             for when in ('before', 'after'):
-                _prepare(sandbox, old, stale, part_name)
+                _prepare(sandbox, old, stale, part_name, DEST)
                 code, r2 = fsio.run_in_child(sandbox, body, crash_at=(idx, when))
                 n_points += 1
                 if code != 137:
                     if r2 and r2.get('harness_exception'):
                         return out.fail('c04.save-raises', '%s raised %s in a repeat run' % (cfg, r2['harness_exception']))
                     raise HarnessError('crash point (%d, %s) not reached: exit %r (events %d)' % (idx, when, code, len(events)))
-                state = _dest_state(sandbox)
+                state = _dest_state(sandbox, DEST)
                 ok = state == new or (old is not None and state == old) or (old is None and state is None)
                 if idx >= first_data:
                     n_nontrivial += 1
@@ -228,6 +259,8 @@ def run(case):
             out.label('destination_present')
         if stale is not None:
             out.label('stale_part_file_taken_over')
+        if case.get('name_len'):
+            out.label('name_len:%d%s' % (case['name_len'], ':refused' if refused else ''))
         if text:
             out.label('text_mode')
         if any(len(c) >= 8192 for c in chunks):
